@@ -122,6 +122,9 @@ func checkPipeReply(r *evid.Run, pc *pipeCase, rq wproto.Req, rp wproto.Rep, can
 		r.Mismatch(route+":goroutines-left:"+leakSig(rp.LeakSigs), fmt.Sprintf("%s: returned %q and left %v", desc, rp.Err, rp.LeakSigs), rec)
 	}
 	faulty := isFaulty(pc.Fates, pc.ReadFail)
+	if rq.WFault != nil {
+		faulty = rp.WRefused // the writer's fault only counts if a Write call was actually refused
+	}
 	switch {
 	case faulty && rp.Class == "ok":
 		r.Mismatch(route+":fault-returned-nil", desc+fmt.Sprintf(": out=%q", rp.Out), rec)
@@ -206,6 +209,27 @@ func checkC11(r *evid.Run) {
 					rq.Procs = p
 					rq.Delays = rng.Int63n(1<<30) + 1
 					jobs = append(jobs, job{pc, rq, "no", p == 4 && n == 5})
+				}
+			}
+		}
+		// a writer that starts failing at some Write call while other roots are in flight (output sinks)
+		if sink == "text" || sink == "enc" || sink == "dry" {
+			for _, n := range []int{2, 6, 12} {
+				fv := make([]string, n)
+				for i := range fv {
+					fv[i] = "ok"
+				}
+				for _, at := range []int{1, 2, 3, 5, 9} {
+					for _, how := range []string{"fail", "fail-once"} {
+						pc := buildPipeCase(sink, fv, n+1)
+						pc.Fates = append([]string{}, fv...)
+						pc.Fates[0] = "sinkErr" // (for the oracle: the call is faulty)
+						rq := pc.Req
+						rq.WFault = &wproto.WFault{How: how, At: at}
+						rq.Yield = 20
+						rq.Procs = procsSet[rng.Intn(len(procsSet))]
+						jobs = append(jobs, job{pc, rq, "no", false})
+					}
 				}
 			}
 		}
